@@ -113,6 +113,7 @@ fn main() {
         "c15-dims" => memdims::c15_dims_cases(&mut rng, &tier, &mut out),
         "c15-blocks" => memdims::c15_blocks_cases(&mut rng, &tier, &mut out),
         "c10" => history::c10_cases(&mut rng, &tier, &mut out),
+        "c10-order" => history::c10_order_cases(&mut rng, &tier, &mut out),
         "c12" => history::c12_cases(&mut rng, &tier, &mut out),
         "c12-cli" => cli::c12_cli_cases(&mut rng, &tier, &mut out),
         "c13" => history::c13_cases(&mut rng, &tier, &mut out),
